@@ -115,6 +115,7 @@ def check(ctx):
     _mode_table(ctx, P)
     _wiring(ctx, P)
     _chunk_merge(ctx, P)
+    _chunked_test(ctx, P)
     _vector_lazy(ctx, P)
 
 
@@ -377,3 +378,32 @@ def _vector_lazy(ctx, P):
             ctx.report("R06.6", "grid:Grid._1d_grid_ufunc_dispatch", "dispatch with a (possibly lazy) vector component", f"raises {o.value} on the fork {[d[1:] for d in o.decisions]}")
     except Unmodelled as e:
         ctx.unknown("R06.6", "dispatch with vector", str(e))
+
+
+def _chunked_test(ctx, P):
+    """R06.7: a core dimension counts as chunked exactly when it has more than one chunk; any chunked core dim decides."""
+    fi = P.func("grid_ufunc:_has_chunked_core_dims")
+    dx, dy = dimsym("AX", "center"), dimsym("AY", "center")
+    cases = [
+        ("in-memory array", None, [dx], False),
+        ("one chunk along the core dim", {dx: (Lin.sym("c0"),), dy: (Lin.sym("d0"), Lin.sym("d1"))}, [dx], False),
+        ("two chunks along the core dim", {dx: (Lin.sym("c0"), Lin.sym("c1")), dy: (Lin.sym("d0"),)}, [dx], True),
+        ("second of two core dims chunked", {dx: (Lin.sym("c0"),), dy: (Lin.sym("d0"), Lin.sym("d1"), Lin.sym("d2"))}, [dx, dy], True),
+        ("only a non-core dim chunked", {dx: (Lin.sym("c0"),), dy: (Lin.sym("d0"), Lin.sym("d1"))}, [dx], False),
+        ("size-1 chunks", {dx: (1, 1, 1), dy: (Lin.sym("d0"),)}, [dx], True),
+    ]
+    for name, chunks, core, want in cases:
+        am = dict(da_attr_models())
+        am[("DataArray", "chunks")] = (lambda ev, o, n, chunks=chunks: None if chunks is None else tuple(chunks.values()))
+        am[("DataArray", "variable")] = (lambda ev, o, n, chunks=chunks: Obj("Variable", "variable", (), {"chunksizes": dict(chunks or {})}))
+        ev = Evaluator(P, attr_models=am)
+        try:
+            outs = ev.run_paths(fi, lambda: dict(obj=make_da("da", [Sym("t"), dx, dy]), core_dims=list(core)))
+        except Unmodelled as e:
+            ctx.unknown("R06.7", name, str(e))
+            continue
+        got = {(o.kind, o.value if o.kind == "return" else str(o.value)) for o in outs}
+        if got != {("return", want)}:
+            ctx.report("R06.7", fi, f"chunked-core-dimension test: {name}", f"_has_chunked_core_dims gives {sorted(map(str, got))}; expected {want} (a core dimension is chunked iff it has more than one chunk)")
+        else:
+            ctx.ok("R06.7", f"chunked-core-dimension test: {name}", str(want))
